@@ -81,7 +81,7 @@ CLAIMED = {
         design="§9 C09", note=NOTE + 'partial: recall through the freeblock/partial pattern at region level is decided by the grid, not by a theorem; open findings C09-02/03/05.', technique=T),
     "C06": dict(
         text="Theorems on the page-layout check (Properties/C06: stable sort, telescoping identity, every SQLite-well-formed layout accepted with fragment total = header count, accepted layouts tile [content offset, page end) without overlap or gap, strict checking irrelevant on accepted pages, freeblock walk bounded and ascending) and the page round trip (Properties/C01Tree: a page laid out as Spec.PageLaidOut — header, pointer array, cells with SQLite's 4-byte minimum allocation, freeblock chain, <= 60 fragment bytes — is parsed to exactly its cells and freeblocks). Spec.PageLaidOut is run (executable form, proved equivalent) on the pages SQLite wrote. Page census tied by full-dump correspondence and SQLite's dbstat / page_count / freelist_count / integrity_check, per version for WAL histories.",
-        design="§9 C06", note=NOTE + 'census (Properties/C06Census): an accepted census has exactly the keys 1..N, each page's class is that of the last source listing it, and under pairwise disjoint sources (what SQLite guarantees; measured against dbstat) every page is listed exactly once with that source's class; the code's two checks alone do NOT detect a page listed twice when all of 1..N are covered (census_accepts_iff_pages_covered, machine-checked witness) - relevant to damaged files only.', technique=T),
+        design="§9 C06", note=NOTE + 'census (Properties/C06Census): an accepted census has exactly the keys 1..N, the class of each page is that of the last source listing it, and under pairwise disjoint sources (what SQLite guarantees; measured against dbstat) every page is listed exactly once with the class of that source; the two checks of the code alone do NOT detect a page listed twice when all of 1..N are covered (census_accepts_iff_pages_covered, machine-checked witness) - relevant to damaged files only.', technique=T),
     "C01": dict(
         text='Theorems (Properties/C01Tree, C01Cell, C01): a table b-tree laid out in the file as SQLite lays it out (Spec.TreeLaidOut over Spec.PageLaidOut over Spec.writeTableLeafCell / encodeRecord, any depth, overflow chains, page 1 included) is parsed, given the stated recursion budget, into exactly its leaf cells in traversal order, each with the stored rowid and column values (table_tree_rows); cell- and page-level round trips; codecs (C15), payload split / chain shape (C16), layout acceptance (C06). The specification is validated against files SQLite wrote (every sampled live cell and page satisfies it). Full-pipeline executable model compared section by section with the implementation over the whole configuration grid, rows compared with SQLite.',
         design="§9 C01", note=NOTE + 'the whole-database statement (schema row -> root page -> tree) is composed by the correspondence, not by one theorem; schema SQL parsing is outside the model; usable size = page size (reserved bytes are refused by the tool).', technique=T),
